@@ -9,7 +9,8 @@ API level (harness/api_lybrt.c, laws on the implementation only):
            for generated schemas / trees with values around k*LYB_SIZE_MAX, deep nesting, many siblings,
            engineered truncated-hash collisions, under the with-defaults print modes.
 """
-import itertools, random, string
+import itertools, os, random, string
+from vlib import paths
 from vlib.proto import hexs, unhex
 from checks import lybhash
 
@@ -137,15 +138,15 @@ def run_wb(cx):
     chunk = []
     small = list(exhaustive_small(cx.n(5, 6)))
     chunk += small
-    for _ in range(cx.n(600, 6000)):
+    for _ in range(cx.n(2500, 20000)):
         chunk.append(random_case(rng, 14, [0, 0, 1, 2, 3, 7, 100, 255, 256, 1000]))
     deltas = range(-4, 5)
     for k in (1, 2, 3):
         for dl in deltas:
-            depths = range(1, 7) if cx.tier == "thorough" else rng.sample(range(1, 7), 2)
+            depths = range(1, 7) if cx.tier == "thorough" else rng.sample(range(1, 7), 3)
             for dp in depths:
                 chunk.append(boundary_case(rng, k, dl, dp))
-    for _ in range(cx.n(25, 300)):
+    for _ in range(cx.n(60, 400)):
         chunk.append(random_case(rng, 10, [0, 1, MAX - 1, MAX, MAX + 1, 2 * MAX, 40000, 70000]))
     for n in (1, 2, 255, 256, 257, cx.n(1500, 4000)):
         chunk.append(["s", "w:3:1", "x:%d" % n, "w:%d:2" % (MAX - 5), "x:3", "w:9:9", "e", "w:1:0"])
@@ -166,7 +167,7 @@ def run_wb(cx):
         for k in range(ns):
             skips.append((k, ops))
     skips = rng.sample(skips, min(len(skips), cx.n(1500, 20000)))
-    for _ in range(cx.n(40, 400)):
+    for _ in range(cx.n(100, 800)):
         ops = boundary_case(rng, rng.choice([1, 1, 2]), rng.choice([-2, -1, 0, 1, 2]), rng.randrange(2, 6))
         skips.append((rng.randrange(ops.count("s")), ops))
     # the two witnesses of F50 and their fine neighbours
@@ -180,7 +181,7 @@ def run_wb(cx):
     idc = string.ascii_lowercase + string.digits + "-_."
     def ident(lo=1, hi=10):
         return (rng.choice(string.ascii_lowercase) + "".join(rng.choice(idc) for _ in range(rng.randrange(lo - 1, hi)))).encode()
-    for _ in range(cx.n(1500, 20000)):
+    for _ in range(cx.n(3000, 30000)):
         cases.append(("hash %s %s %d" % (hexs(ident(1, 12)), hexs(ident(1, 16)), rng.randrange(0, 11)), ("hash",)))
     cases.append(("hash 79 656e 3", ("hash",)))
     for _ in range(cx.n(800, 10000)):
@@ -200,6 +201,7 @@ def run_wb(cx):
     for mod, names in sib_sets(cx, rng):
         cases.append(("sibs %s %s" % (hexs(mod), ",".join(hexs(n) for n in names)), ("sibs", mod, names)))
 
+    cases = corpus_cases() + cases
     cases = list({c[0]: c for c in cases}.values())
     lines = ["%d lyb %s" % (i, c[0]) for i, c in enumerate(cases)]
     meta = {str(i): c[1] for i, c in enumerate(cases)}
@@ -266,6 +268,34 @@ def run_wb(cx):
                          "total_collision": total_collision(mod, names)})
     for c in [x for x in cx.failures if x.get("case", {}).get("crash")]:
         pass
+
+
+def corpus_cases():
+    """corpus/lyb/wb.txt: request lines without id, run first"""
+    out = []
+    fn = os.path.join(paths.CORPUS, "lyb", "wb.txt")
+    if not os.path.exists(fn):
+        return out
+    for l in open(fn):
+        l = l.strip()
+        if not l or l.startswith("#"):
+            continue
+        t = l.split()
+        if t[0] == "chunk":
+            out.append((l, ("chunk", [] if t[1] == "-" else t[1].split(","))))
+        elif t[0] == "skip":
+            out.append((l, ("skip", t[2].split(","), int(t[1]))))
+        elif t[0] == "rev":
+            if t[1] == "-":
+                out.append((l, ("rev", None, None, None)))
+            else:
+                y, m, d = unhex(t[1]).decode().split("-")
+                out.append((l, ("rev", int(y), int(m), int(d))))
+        elif t[0] == "sibs":
+            out.append((l, ("sibs", unhex(t[1]), [unhex(x) for x in t[2].split(",")])))
+        else:
+            out.append((l, (t[0],)))
+    return out
 
 
 def total_collision(mod, names):
